@@ -298,6 +298,10 @@ def failing_op(pool):
         v = rng.choice([b'\xc4\x80', b'abc\xe2\x82\xac', b'x' * 20 + b'\xf0\x9f\x98\x80'])
         pool.new(d, v)
         pool.ops.append('latin1fail,%d,M=throw:unicode_error:%s' % (d, hx(b'\0' * len(v))))
+        # the out-parameter forms: the caller's buffer / std::string holds a previous value of some size class
+        for k in ('tobuffail', 'tobufvfail', 'tostdfail'):
+            prev = rstr(rng, rng.choice(SIZES))
+            pool.ops.append('%s,%d,%s,M=throw:unicode_error:%s/%s' % (k, d, hx(prev), hx(prev), hx(b'\0' * len(v))))
         # the non-ASCII helper string does not stay in the pool (later byte-level operations on it, e.g. a replace
         # that cuts a multi-byte character, legitimately throw from result validation)
         pool.ops.append('reads,%d' % d)
